@@ -24,3 +24,18 @@ build_race() {
   fi
   _build "-race $OV" "$VERIF_DIR/.build/ottosim_race"
 }
+build_race_keep() {
+  # Third flavour: race detector armed and a Pool that never drops what is Put
+  # (the toolchain's own code minus the random drop). Put->Get keeps its
+  # happens-before edge, so legitimate reuse stays silent, but a use after Put
+  # that meets another runtime's use of the same pooled object is reported.
+  # Run with GOMAXPROCS=1 (one P, one private pool slot).
+  GR="$(go env GOROOT)"
+  OV=""
+  if sed 's/if runtime_randn(4) == 0 {/if false {/' "$GR/src/sync/pool.go" > "$VERIF_DIR/.build/pool_keep_overlay.go" \
+     && ! cmp -s "$GR/src/sync/pool.go" "$VERIF_DIR/.build/pool_keep_overlay.go"; then
+    printf '{"Replace":{"%s/src/sync/pool.go":"%s/.build/pool_keep_overlay.go"}}' "$GR" "$VERIF_DIR" > "$VERIF_DIR/.build/overlay_keep.json"
+    OV="-overlay $VERIF_DIR/.build/overlay_keep.json"
+  fi
+  _build "-race $OV" "$VERIF_DIR/.build/ottosim_racekeep"
+}
